@@ -141,6 +141,8 @@ impl<const B_SIZE: usize> RSSupport for RSSupportPlain<B_SIZE> {
         let superblock_index = Self::superblock_index(i);
         let block_index = Self::block_index(i);
 
+        #[cfg(qwt_verif)]
+        crate::verif::idx("rsq.rank_block", superblock_index, self.superblocks.len());
         unsafe {
             self.superblocks
                 .get_unchecked(superblock_index)
@@ -250,6 +252,8 @@ impl SuperblockPlain {
 
     #[inline(always)]
     fn get_rank(&self, symbol: u8, block_id: usize) -> usize {
+        #[cfg(qwt_verif)]
+        crate::verif::idx("rsq.counter", symbol as usize, 4);
         let data = unsafe { *self.counters.get_unchecked(symbol as usize) };
         let sb = (data >> 84) as usize;
 
@@ -261,6 +265,8 @@ impl SuperblockPlain {
     }
 
     fn get_superblock_counter(&self, symbol: u8) -> usize {
+        #[cfg(qwt_verif)]
+        crate::verif::idx("rsq.counter", symbol as usize, 4);
         (unsafe { *self.counters.get_unchecked(symbol as usize) } >> 84) as usize
     }
 
